@@ -95,6 +95,17 @@ pub fn run(reg: &dyn Registry, ctx: &Ctx) -> Outcome {
         let zero_img = vec![0u8; info.seed_len];
         let bad: Vec<&Vec<u8>> = seeds.par_iter().filter(|s| crate::ops::guarded(|| ty.from_seed(s).ser()).ok().flatten().as_deref() == Some(&zero_img[..])).collect();
         ctx.add("api_seeds_checked_nonzero_state", seeds.len() as u64);
+        // from_rng over sources that start with z all-zero blocks
+        for z in crate::alphabet::zero_block_counts(65536) {
+            let mut script = vec![0u8; z * info.seed_len];
+            script.extend(std::iter::repeat(0x5Au8).take(2 * info.seed_len));
+            let mut src = crate::subject::ScriptSource::new(script);
+            ctx.add("api_seeds_checked_nonzero_state", 1);
+            if crate::ops::guarded(|| ty.from_rng(&mut src).ser()).ok().flatten().as_deref() == Some(&zero_img[..]) {
+                ctx.violation(&format!("C07:{}:api-zero-state", info.name), &format!("{}: from_rng over a source with {} leading all-zero blocks is in the all-zero state, the fixed point outside the cycle", info.name, z), json!({"kind":"note","zero_blocks":z}));
+                break;
+            }
+        }
         for x in crate::alphabet::u64_alphabet() {
             ctx.add("api_seeds_checked_nonzero_state", 1);
             if crate::ops::guarded(|| ty.seed_from_u64(x).ser()).ok().flatten().as_deref() == Some(&zero_img[..]) {
@@ -130,6 +141,53 @@ pub fn run(reg: &dyn Registry, ctx: &Ctx) -> Outcome {
                 None => ctx.machinery(&format!("{}: step is not the extracted linear map ({} replay mismatches) and no colliding pair was found: undecided", info.name, b.mismatch_count)),
             }
             continue;
+        }
+        // value-directed deep states: s0 with T^k s0 special (k = 2^8-1, 2^8, 2^16-1, 2^16); the real state
+        // after k+2 steps must be T^(k+2) s0 (the model is bound; a periodic guard keyed on the state's
+        // words that throws a legal state away would show here)
+        {
+            let wb = info.word_bits;
+            let mut jobs: Vec<(usize, BitVec)> = Vec::new();
+            for k in [255usize, 256, 65535, 65536] {
+                let tk = b.ex.mat.pow_big(&BigU::from_u64(k as u64));
+                for t in crate::linear::special_images(n, wb, ctx.seed ^ k as u64).into_iter().step_by(if k > 1000 { 3 } else { 1 }) {
+                    if let Some(s0) = tk.solve(&t) {
+                        if !s0.is_zero() {
+                            jobs.push((k, s0));
+                        }
+                    }
+                }
+            }
+            let bad: Vec<(usize, BitVec, BitVec, BitVec)> = jobs
+                .par_iter()
+                .filter_map(|(k, s0)| {
+                    let mut g = crate::linear::make_state(*ty, s0).ok()?;
+                    for _ in 0..k + 2 {
+                        if wb == 32 {
+                            g.next_u32();
+                        } else {
+                            g.next_u64();
+                        }
+                    }
+                    let got = crate::linear::state_of(g.as_ref()).ok()?;
+                    let want = b.ex.mat.pow_big(&BigU::from_u64(*k as u64 + 2)).apply(s0);
+                    if got != want {
+                        Some((*k, s0.clone(), got, want))
+                    } else {
+                        None
+                    }
+                })
+                .collect();
+            ctx.add("value_directed_deep_starts", jobs.len() as u64);
+            if let Some((k, s0, got, want)) = bad.first() {
+                // two different start states reaching the same state is the witness of non-injectivity;
+                // the state reached must have the model's unique preimage chain, so report the divergence
+                ctx.violation(
+                    &format!("C07:{}:deep-special", info.name),
+                    &format!("{}: from state {} the generator is in state {} after {} steps, but every step being the bijection T it must be in {} (a state on the orbit was replaced)", info.name, hex(&s0.to_bytes()), hex(&got.to_bytes()), k + 2, hex(&want.to_bytes())),
+                    json!({"kind":"note","type":info.name,"state":hex(&s0.to_bytes()),"steps":k + 2}),
+                );
+            }
         }
         let d = b.ex.mat.digest() ^ (n as u64);
         let e = by_digest.entry(d).or_insert_with(|| (vec![], order_is_full(&b.ex.mat)));
